@@ -183,6 +183,8 @@ class CallMixin:
         c = self.contracts[f"{qual}@{variant}" if variant else qual]
         if getattr(c, "stop_before", None):
             raise Unsupported(f"contract call {qual}: a prefix contract (stop_before) says nothing about the call's result")
+        if getattr(c, "start_at", None):
+            raise Unsupported(f"contract call {qual}: a tail contract (start_at) describes a part of the body, not the call")
         if self.binders and not self.spec:
             # the result of a contract call is a fresh unknown; inside a comprehension's element expression it has to be a
             # different unknown per element: done for observer contracts (call_contract_elementwise), otherwise refused
@@ -445,6 +447,8 @@ class CallMixin:
                 return self.boxed_list_method(recv, name, args, node, st)
             if self.classes.get(recv.cls, {}).get("boxed_set") and qual not in self.externals:
                 return self.boxed_set_method(recv, name, args, node, st)
+            if self.classes.get(recv.cls, {}).get("boxed_valueset") and qual not in self.externals:
+                return self.boxed_valueset_method(recv, name, args, node, st)
             ext = self.externals.get(qual)
             if ext is not None:
                 # method of an object of a third-party class, given by an assumed contract of the sidecar (trusted base).
@@ -637,6 +641,24 @@ class CallMixin:
             return self.set_method(S, name, args, node, st, BoxTarget(ref, fld))
         raise Unsupported(f"{name} of a set object")
 
+    def boxed_valueset_method(self, ref, name, args, node, st):
+        """A Python set object with identity whose members have no key sort in the engine (e.g. frozen dataclass values with
+        list-valued fields): class entry {"boxed_valueset": "<field>"}, the field holds the LIST of the values added so far
+        (in any order, repetitions allowed).  `x in s` is true exactly when x == e for one of the values e added (Python:
+        hash and == of a member; the dataclass-generated / builtin hashes are consistent with ==), so membership is list
+        membership; add / update append.  Nothing else (len, iteration, remove, truth value, ==) is modelled."""
+        fld = self.classes[ref.cls]["boxed_valueset"]
+        L = self.heap_read(st, ref, fld)
+        if name == "__contains__" and len(args) == 1:
+            return self.contains(L, args[0], node)
+        if name == "add" and len(args) == 1:
+            return self.list_method(L, "append", args, node, st, BoxTarget(ref, fld))
+        if name == "update" and len(args) == 1 and isinstance(args[0], VList):
+            if args[0].elems is None:
+                return None
+            return self.list_method(L, "extend", args, node, st, BoxTarget(ref, fld))
+        raise Unsupported(f"{name} of a set object kept as the list of its values")
+
     def set_method(self, S, name, args, node, st, recv_node):
         if name == "add":
             ks = key_terms(args[0])
@@ -658,6 +680,11 @@ class CallMixin:
             key, dflt = args[0], (args[1] if len(args) > 1 else None)
             hit = AND(NOT(key.isnone), sel(D.dom, *key_terms(key.val)))
             return self.merge(hit, sel(D.vals, *key_terms(key.val)), dflt)
+        if name == "get" and isinstance(args[0], VTuple) and D.kshape[0] == "tuple" and len(args[0].items) == len(D.kshape[1]) \
+                and any((is_str(x_) and s_[0] == "ref") or (isinstance(x_, VRef) and s_ == ("str",)) for x_, s_ in zip(args[0].items, D.kshape[1])):
+            # a tuple key with a string where every key of the dict has an object (or the other way round): a str and an
+            # object never compare equal (same rule as ExprMixin.eq for values of different kinds), so the key is absent
+            return args[1] if len(args) > 1 else None
         if name == "get":
             ks = key_terms(args[0])
             dflt = args[1] if len(args) > 1 else None
